@@ -48,9 +48,8 @@ def is_negation(w, v):
 
 
 def mentions(term, sub):
-    from ..vg import _key
-    ks = repr(_key(sub))
-    return ks in repr(_key(term))
+    from ..vg import contains_term
+    return contains_term(term, sub)
 
 
 def need_known(ctx, term, construct):
